@@ -17,10 +17,13 @@ func (g *Gen) instr(in ssa.Instruction, li *loopInfo) {
 	switch x := in.(type) {
 	case *ssa.Phi:
 	case *ssa.DebugRef:
+		if id, ok := x.Expr.(*ast.Ident); ok && x.IsAddr && id.Name != "_" {
+			fr.setNamedAddr(id.Name, x.X, x.Block())
+		}
 		if id, ok := x.Expr.(*ast.Ident); ok && !x.IsAddr && id.Name != "_" {
 			if _, isFn := x.X.(*ssa.Function); !isFn {
-				fr.named[id.Name] = x.X
-				if fr.c != nil && len(fr.c.Asserts) > 0 && !fr.inl {
+				fr.setNamed(id.Name, x.X, x.Block())
+				if fr.c != nil && len(fr.c.Asserts)+len(fr.c.GhostAts) > 0 && !fr.inl {
 					// anchor "def <var>#k": after the k-th (source order) definition/assignment of variable <var>
 					if k := g.defOrdinal(fr, id); k > 0 {
 						g.atAnchor(fmt.Sprintf("def %s#%d", id.Name, k), &TEnv{g: g, vars: map[string]tvT{}})
@@ -45,7 +48,7 @@ func (g *Gen) instr(in ssa.Instruction, li *loopInfo) {
 		default: // string
 			g.safety("index", fmt.Sprintf("(and %s %s)", g.le(g.idx(0), i, true), g.lt(i, "(len "+a+")", true)), "string index in range")
 			c, _ := g.memComp(types.Typ[types.Uint8])
-			fr.val[x] = g.define(x.Name(), g.sortOf(x.Type()), fmt.Sprintf("(select (select %s (base %s)) %s)", g.heapGet(c), a, g.addIdx("(off "+a+")", i)))
+			fr.val[x] = g.define(x.Name(), g.sortOf(x.Type()), fmt.Sprintf("(select (select %s (base %s)) %s)", g.heapGet(c), a, g.elemIdx("(off "+a+")", i)))
 		}
 	case *ssa.Convert:
 		fr.val[x] = g.convert(x)
@@ -242,7 +245,7 @@ func (g *Gen) indexAddr(x *ssa.IndexAddr) {
 		s := g.term(x.X)
 		g.safety("index", fmt.Sprintf("(and %s %s)", g.le(g.idx(0), i, true), g.lt(i, fmt.Sprintf("(len %s)", s), true)), "slice index in range")
 		c, so := g.memComp(u.Elem())
-		fr.lv[x] = &lval{kind: "heap", comp: c, csort: so, ref: fmt.Sprintf("(base %s)", s), path: []pathElem{{isIdx: true, idx: g.addIdx(fmt.Sprintf("(off %s)", s), i)}}, typ: u.Elem()}
+		fr.lv[x] = &lval{kind: "heap", comp: c, csort: so, ref: fmt.Sprintf("(base %s)", s), path: []pathElem{{isIdx: true, idx: g.elemIdx(fmt.Sprintf("(off %s)", s), i)}}, typ: u.Elem()}
 	case *types.Pointer:
 		arr := u.Elem().Underlying().(*types.Array)
 		g.safety("index", fmt.Sprintf("(and %s %s)", g.le(g.idx(0), i, true), g.lt(i, g.idx(arr.Len()), true)), "array index in range")
@@ -459,6 +462,12 @@ func (g *Gen) ret(x *ssa.Return) {
 	}
 	g.nret++
 	g.cover(fmt.Sprintf("return%d", g.nret))
+	g.inRet = g.nret
+	retFrom := len(g.defs)
+	defer func() {
+		g.retLocal = append(g.retLocal, [3]int{retFrom, len(g.defs), g.inRet})
+		g.inRet = 0
+	}()
 	renv := g.curEnv()
 	renv.old = nil
 	renv.oldEntry = true
@@ -781,6 +790,7 @@ func (g *Gen) atAnchor(anchor string, env *TEnv) {
 	if c == nil {
 		return
 	}
+	g.ghostAtAnchor(anchor, env)
 	for i, a := range c.Asserts {
 		if a.Anchor == anchor {
 			if g.firedAnchors == nil {
@@ -801,7 +811,9 @@ func (g *Gen) atAnchor(anchor string, env *TEnv) {
 			}
 			g.firedAnchors[anchor] = true
 			g.ob("assert", invLabel(&Clause{Label: a.Label}, i), p, a.Anchor+": "+a.E.String())
-			g.assumeProved(g.curR, p)
+			if !a.GoalOnly {
+				g.assumeProved(g.curR, p)
+			}
 		}
 	}
 }
